@@ -18,7 +18,7 @@ ASSUMPTIONS = [
 
 def bounds(tier):
     q = 0 if tier == "quick" else 1
-    return {"rounds_T": "5 (quick) / 7 (thorough) on midpoint partitions; 3/4 on random-split partitions", "nu_rho": [[10, 0.9], [1, 0.9], [0.1, 0.5], [10, 0.3], [3, 0.5]],
+    return {"rounds_T": "d=1: 5 (quick) / 8 (thorough) on midpoint partitions, 3/4 on random-split partitions; d=2: 3 / 5 (random split: 2)", "nu_rho": [[10, 0.9], [1, 0.9], [0.1, 0.5], [10, 0.3], [3, 0.5]],
             "partitions": "B, RB, DB, K2, K3, K4, RK3", "dimensions": [1, 2], "outside": "longer histories"}
 
 
@@ -29,10 +29,10 @@ def configs(tier, seed):
         for d in (1, 2):
             if d == 2 and part not in ("B", "DB", "K3", "RB"):
                 continue
-            T = (5 + 2 * q) if d == 1 else (3 + q)
+            T = (5 + 3 * q) if d == 1 else (3 + 2 * q)
             T = c01.rounds_override("Zooming", part, d, T, q)
             if part in ("K4", "K5"):
-                T = min(T, 4 + q)
+                T = min(T, 4 + 2 * q)
             grid = [(10, 0.9)] + ([(1, 0.9), (0.1, 0.5), (10, 0.3), (3, 0.5)] if part in ("B", "K3") and d == 1 else [])
             for nu, rho in grid:
                 out.append({"name": "zoom-%s-d%d-T%d-nu%s-rho%s" % (part, d, T, nu, rho), "algo": "Zooming", "part": part, "d": d, "T": T,
